@@ -298,6 +298,8 @@ def serialise(rng, g, one_file=False, base_name=True, uri_rng=None, extras=True)
         alias = {}
         cands = list({BASE(v) for v in REFTYPES.values()} | {BASE(i) for i in (6, 11, 12)}
                      | {ty for lst in placed.values() for (_o, ty, _f) in lst})
+        # … and the nodes named by DataType / ParentNodeId / MethodDeclarationId attributes: an alias stands for any NodeId
+        cands += sorted({v for k_ in own for v in g["nodes"][k_]["attrs"].values() if isinstance(v, tuple)} - set(cands))
         names = {}
         for c_ in cands:
             if rng.random() < 0.6:
